@@ -87,7 +87,7 @@ CHECKS["C05"] = dict(
          "proved); the guard is shown necessary by a kernel-evaluated counterexample; byte, digest and identity codecs invert. "
          "Correspondence: random declarations x value pools through validate / validate-again / to_basic / to_python on the real "
          "fields and the model (about 7000 comparisons per quick run), with direct idempotence and codec oracles on the implementation."
-         " Continuation (Props/C05b.lean): validation is sound with respect to the declared constraints for every kind and option, nested typed lists and dicts included (type shape, numeric bounds with exact int/float comparison, lengths, choices, regex, case- and strip-normal form, prefix bounds and canonical network text, existence modes, duplicate-free dict keys).",
+         " Continuation (Props/C05b.lean): validation is sound with respect to the declared constraints for every kind and option, nested typed lists and dicts included (type shape, numeric bounds with exact int/float comparison, lengths, choices, regex, case- and strip-normal form, prefix bounds and canonical network text, existence modes, duplicate-free dict keys). Props/C05c.lean: the converse on normal forms — a value satisfying the declaration is accepted unchanged, so the set of validation results is exactly the set of values satisfying the declaration (accepts_exactly), under a decidable side condition whose every exclusion has a proved counter-example (custom validators, the recorded F22 / F25 declarations).",
     note="Model hand-written; tie = differential correspondence. float(text), os.path.*, urlparse are environment parameters fed from "
          "CPython per case; str.lower/upper/strip, int(text), the re fragment and ipaddress are hand models (model alphabet; outside it "
          "cases are counted as unmodelled). Exactness against an independent declarative Accepts predicate is not yet stated as a "
